@@ -19,7 +19,7 @@ THEOREMS = [_P + n for n in [
     "on_close_when_down", "down_implies_notified", "teardown_timeout", "closed_iff_logged", "peer_terminated_closed",
     "close_sent_terminated", "waiting_ping_off", "inv_run",
     "inv2_run", "echo_unless_sent", "both_closed_sends_close", "teardown_both_closed", "on_close_carries_peer_close",
-    "close_code_is_peers",
+    "close_code_is_peers", "w_run", "close_pending_timer_armed", "settled_at_quiescence",
 ]]
 TRUSTED = [
     "asyncio task/timer ordering and BaseIOStream read/close semantics as abstracted by the model's receive loop "
@@ -33,7 +33,10 @@ ASSUMPTIONS = [
     "transport writes never fail or block (send errors are C12/C13)",
     "ping configurations: off, (interval 3, timeout 2), (interval 2, default timeout), (interval 2, timeout 0)",
 ]
-RULE = ("event sequences over {localClose, recvClose(5 payload forms), peerDisconnect, timer, recvPong, recvPing, "
+RULE = ("every case ends with release, release, 4 x timer (= fire all remaining timers), probe, and the harness reports "
+        "whether the endpoint is quiescent (no live timer, no on_message in flight) for the oracle's settledAtQuiescence clause; "
+        "a dedicated family covers a second protocol-level close() while the closing timeout is pending (ping timeout, then "
+        "the application's close, silent or late peer); event sequences over {localClose, recvClose(5 payload forms), peerDisconnect, timer, recvPong, recvPing, "
         "recvData sync/async, release, appWrite} + release,release,probe; both sides x 4 ping configurations; "
         "non-trivial = at least 2 events and the run reaches a close frame or a transport teardown; distinct by canonical JSON")
 EXHAUSTIVE = {"quick": False, "thorough": True}
@@ -43,7 +46,9 @@ CLAUSES = {
     "echoes the peer's close code unless it had already sent its own close frame":
         "echo_unless_sent (a close frame written after the peer's was received carries exactly the peer's code; with one_close_frame: unless ours was already sent) + both_closed_sends_close (our close frame is on the wire at every step boundary after a well-formed peer close)",
     "tears down the TCP connection once both sides have closed or the closing timeout elapses":
-        "teardown_both_closed (both closed) + teardown_timeout (timeout) + peer_terminated_closed (peer's close processed => transport down)",
+        "teardown_both_closed (both closed) + teardown_timeout (timeout) + peer_terminated_closed (peer's close processed => transport down) "
+        "+ close_pending_timer_armed (close sent and transport up => the closing timeout is armed, also after a second close()) "
+        "+ settled_at_quiescence (no timer live, nothing in flight, close frame sent => transport down and notified)",
     "the close notification fires exactly once": "on_close_once + on_close_when_down + down_implies_notified",
     "with the peer's code and reason when one was received": "on_close_carries_peer_close + close_code_is_peers (state form)",
     "writes after closing fail with WebSocketClosedError": "write_after_close_fails + close_sent_terminated",
@@ -68,7 +73,32 @@ A_FULL = [
 A_CORE = [["localClose", 1001, "bye"], ["recvClose", "0bb86f6b"], ["peerDisconnect"], ["timer"], ["recvPong"],
           ["recvData", True], ["release"], ["appWrite"]]
 A_SIX = [["localClose", None, None], ["recvClose", "03e8"], ["timer"], ["recvData", True], ["release"], ["appWrite"]]
-TAIL = [["release"], ["release"], ["probe"]]
+# every case ends with: release what is in flight, then "fire all remaining timers" (4 x `timer` reaches quiescence from
+# every state with a silent peer: ping -> ping timeout -> close -> closing timeout; only ping_timeout=0 on an open
+# connection pings forever), then a probe.  run_impl reports whether the endpoint really is quiescent at the end.
+FLUSH = [["timer"]] * 4
+TAIL = [["release"], ["release"]] + FLUSH + [["probe"]]
+LOCAL_CLOSES = [["localClose", None, None], ["localClose", 1001, "bye"], ["localClose", None, "ré"]]
+BETWEEN = [[], [["appWrite"]], [["recvPing", "6869"]], [["recvData", False]], [["recvData", True]], [["recvPong"]], [["release"]]]
+AFTER = [[], [["timer"]], [["appWrite"]], [["recvClose", "0bb86f6b"]], [["peerDisconnect"]], [["recvPong"]],
+         [["localClose", 1001, "bye"]], [["recvData", True], ["timer"]]]
+
+
+def _double_close_cases(tails=(TAIL,), between=BETWEEN, closes=LOCAL_CLOSES):
+    """a SECOND protocol-level close() while the closing timeout is pending: the ping timeout closes the protocol (the
+    handler / connection keeps its reference), then the application closes the same connection; the peer is silent or
+    reacts late.  Also without the trailing timers (the harness then only fires what the case asks for)."""
+    for side in ("server", "client"):
+        for ping, pre in (("p32", [["timer"], ["timer"]]), ("p22", [["timer"], ["timer"]]),
+                          ("p32", [["timer"], ["recvPong"], ["timer"], ["timer"], ["timer"]]),
+                          ("p22", [["timer"], ["recvPong"], ["timer"], ["timer"]])):
+            for mid in between:
+                for lc in closes:
+                    for post in AFTER:
+                        for tail in tails:
+                            yield {"side": side, "ping": ping,
+                                   "ops": [list(o) for o in pre + mid + [lc] + post + list(tail)]}
+
 CFGS = [(s, p) for s in ("server", "client") for p in ("off", "p32", "p22", "p20")]
 
 
@@ -116,6 +146,7 @@ def gen_cases(rng, tier):
         yield from _enum(A_CORE, 3, [("server", "off"), ("client", "off"), ("server", "p32"), ("client", "p22")], minlen=3)
         yield from _enum(A_FULL, 2, [("server", "off"), ("client", "off")])
         yield from _enum(A_SIX, 4, [rng.choice([("server", "p22"), ("client", "p32"), ("client", "off"), ("server", "off")])], minlen=4)
+        yield from _double_close_cases(between=BETWEEN[:4], closes=LOCAL_CLOSES[:2])
         n = 1500
     elif tier == "thorough":
         four = [("server", "off"), ("client", "off"), ("server", "p32"), ("client", "p22")]
@@ -124,6 +155,7 @@ def gen_cases(rng, tier):
         yield from _enum(A_FULL, 3, [("server", "off"), ("client", "off")])
         yield from _enum(A_SIX, 5, [("server", "off"), ("client", "off")], minlen=5)
         yield from _enum(A_SIX, 6, [four[rng.randrange(2)]], minlen=6)
+        yield from _double_close_cases(tails=(TAIL, [["probe"]], [["timer"], ["probe"]]))
         n = 20000
     else:
         n = 6000
@@ -399,13 +431,16 @@ def run_impl(case):
                 lp.drain()
                 steps.append(rec.cur)
             rec.cur = []
+            # quiescent = no timer of this endpoint is live (every timeout that was armed has elapsed or was cancelled)
+            # and no on_message is in flight: nothing will ever happen again unless the peer acts
+            quiescent = not lp.live_timers() and not rec.pending
     finally:
         os.urandom = real_urandom
         for lg, tap, prop in taps:
             lg.removeHandler(tap)
             lg.propagate = prop
         logging.getLogger("tornado.access").disabled = False
-    return {"steps": steps}
+    return {"steps": steps, "quiescent": quiescent}
 
 
 # ------------------------------------------------------------------------------------------------ model / spec
@@ -481,7 +516,7 @@ def spec_requests(case, impl):
     for op, s in zip(case["ops"], impl["steps"]):
         evs.append([atom("op"), _wire_op(op)])
         evs += [_wire_ev(e) for e in s]
-    return [line(ID, "spec", evs)]
+    return [line(ID, "spec", evs, atom(bool(impl.get("quiescent", False))))]
 
 
 def spec_violation(case, impl, replies):
